@@ -1264,10 +1264,18 @@ enum ChildOutcome {
     Fail(String, String),
     Signal(i32, bool),
     Hang,
+    /// only with an explicit address-space cap: the child aborted in `handle_alloc_error` under that cap
+    AllocFailure(u64),
     Harness(#[allow(dead_code)] String),
 }
 
 fn run_in_child(part: &str, choices: &[u32], exh: u32, no_excl: bool) -> ChildOutcome {
+    run_in_child_capped(part, choices, exh, no_excl, None)
+}
+
+/// `cap_gib`: address-space limit of the child (RLIMIT_AS, set between fork and exec). With a cap, an allocation failure
+/// is reported as its own outcome; without one it is "could not be judged" as before.
+fn run_in_child_capped(part: &str, choices: &[u32], exh: u32, no_excl: bool, cap_gib: Option<u64>) -> ChildOutcome {
     use std::io::Read;
     use std::os::unix::process::{CommandExt, ExitStatusExt};
     use std::process::{Command, Stdio};
@@ -1288,9 +1296,13 @@ fn run_in_child(part: &str, choices: &[u32], exh: u32, no_excl: bool) -> ChildOu
     c.env("VERIF_C05_DIRECT", "1").env("VERIF_DEBUG", "1");
     c.stdin(Stdio::null()).stdout(Stdio::piped()).stderr(Stdio::piped());
     unsafe {
-        c.pre_exec(|| {
+        c.pre_exec(move || {
             // never outlive the worker that waits for us
             libc::prctl(libc::PR_SET_PDEATHSIG, libc::SIGKILL);
+            if let Some(g) = cap_gib {
+                let lim = libc::rlimit { rlim_cur: g << 30, rlim_max: g << 30 };
+                libc::setrlimit(libc::RLIMIT_AS, &lim);
+            }
             Ok(())
         });
     }
@@ -1350,7 +1362,9 @@ fn run_in_child(part: &str, choices: &[u32], exh: u32, no_excl: bool) -> ChildOu
         Some(c) => ChildOutcome::Harness(format!("child exit code {}: {}", c, out)),
         None => {
             let sig = st.signal().unwrap_or(0);
-            if sig == libc::SIGKILL || err.contains("memory allocation of") {
+            if let (Some(g), true) = (cap_gib, err.contains("memory allocation of")) {
+                ChildOutcome::AllocFailure(g)
+            } else if sig == libc::SIGKILL || err.contains("memory allocation of") {
                 // killed from outside / allocation failure under the address-space cap: memory is not judged
                 ChildOutcome::Harness(format!("child out of memory or killed (signal {})", sig))
             } else {
@@ -1407,7 +1421,141 @@ pub fn run_deep(s: &mut Src, ctx: &mut Ctx) -> Verdict {
             }
         }
         ChildOutcome::Hang => Verdict::fail(format!("hang@{}", t.name()), format!("{} did not return within {} s on {:?}", t.name(), watchdog_secs(), short(&text))),
-        ChildOutcome::Harness(_) => Verdict::Discard("child process could not be run (or ran out of memory)"),
+        ChildOutcome::Harness(_) | ChildOutcome::AllocFailure(_) => Verdict::Discard("child process could not be run (or ran out of memory)"),
+    }
+}
+
+// ------------------------------------------------------------------ module import graphs (parse_with_modules)
+
+/// Part `modgraph`: `parse_with_modules` registers every `defmodule` block and resolves its `import:` lines through
+/// the module manager (cycle detection included), so the work it does depends on the SHAPE of the import graph, which
+/// no token soup produces. Every shape x size below, up to 4 KiB of text, must come back within the watchdog:
+/// chain, ladder (each module imports the two / three before it: stacked diamonds), two-column diamond stack,
+/// complete DAG, fan-in, fan-out, and each of them with a closing back edge (a refused cycle) or a self import.
+/// Larger cases run in a child process whose address space is capped at 3 GiB: a 4 KiB text that makes the parser
+/// allocate beyond that does not "return a value or an error" either - the process aborts (`alloc-failure@...`).
+const MG_LEVELS: [usize; 12] = [2, 3, 4, 6, 8, 12, 16, 20, 24, 32, 48, 64];
+const MG_SHAPES: usize = 7;
+
+fn build_modgraph(shape: usize, levels: usize, tail_kind: usize, spec: usize) -> (String, usize) {
+    let import = |to: &str| -> String {
+        match spec {
+            0 => format!("import: {} (rules)\n", to),
+            1 => format!("import: {} (rules * (templates *))\n", to),
+            _ => format!("  import: {} (templates t)\n", to),
+        }
+    };
+    let name = |i: usize| format!("M{}", i);
+    let mut t = String::new();
+    let mut made = 0usize;
+    let mut block = |t: &mut String, n: &str, imports: &[String], export: bool| -> bool {
+        let mut b = format!("defmodule {} {{\n", n);
+        for i in imports {
+            b.push_str(&import(i));
+        }
+        if export {
+            b.push_str("export: all\n");
+        }
+        b.push_str("}\n");
+        if t.len() + b.len() > MAX_LEN - 64 {
+            return false;
+        }
+        t.push_str(&b);
+        true
+    };
+    match shape {
+        // two columns: A_i and B_i both import A_(i-1) and B_(i-1)
+        3 => {
+            for i in 0..levels {
+                let prev: Vec<String> = if i == 0 { vec![] } else { vec![format!("A{}", i - 1), format!("B{}", i - 1)] };
+                if !block(&mut t, &format!("A{}", i), &prev, i % 2 == 0) || !block(&mut t, &format!("B{}", i), &prev, false) {
+                    break;
+                }
+                made = i + 1;
+            }
+        }
+        _ => {
+            for i in 0..levels {
+                let imports: Vec<String> = match shape {
+                    0 => (i.saturating_sub(1)..i).map(name).collect(),            // chain
+                    1 => (i.saturating_sub(2)..i).map(name).collect(),            // ladder of diamonds
+                    2 => (i.saturating_sub(3)..i).map(name).collect(),            // three back
+                    4 => (0..i).map(name).collect(),                              // complete DAG
+                    5 => if i + 1 == levels { (0..i).map(name).collect() } else { vec![] }, // fan-in
+                    _ => if i > 0 { vec![name(0)] } else { vec![] },              // fan-out
+                };
+                if !block(&mut t, &name(i), &imports, i % 3 == 0) {
+                    break;
+                }
+                made = i + 1;
+            }
+        }
+    }
+    // what follows the graph: nothing, an import that would close a cycle (refused: the parser returns Err), a self
+    // import, or a rule assigned to the last module
+    let last = if shape == 3 { format!("A{}", made.saturating_sub(1)) } else { name(made.saturating_sub(1)) };
+    let first = if shape == 3 { "A0".to_string() } else { name(0) };
+    match tail_kind {
+        1 => t.push_str(&format!("defmodule {} {{\n{}}}\n", first, import(&last))),
+        2 => t.push_str(&format!("defmodule {} {{\n{}}}\n", last, import(&last))),
+        3 => t.push_str(&format!(";; MODULE: {} - x\nrule \"R\" {{ when X.a == 1 then X.b = 1; }}\n", last)),
+        _ => {}
+    }
+    (clamp(t), made)
+}
+
+pub fn run_modgraph(s: &mut Src, ctx: &mut Ctx) -> Verdict {
+    let shape = s.below(MG_SHAPES);
+    let li = s.below(MG_LEVELS.len());
+    let tail_kind = s.below(4);
+    let spec = s.below(3);
+    let (text, made) = build_modgraph(shape, MG_LEVELS[li], tail_kind, spec);
+    if probe_only() {
+        return Verdict::Pass;
+    }
+    let t = ParseWithModules;
+    let shape_name = ["chain", "ladder-2", "ladder-3", "two-column-diamonds", "complete-dag", "fan-in", "fan-out"][shape];
+    ctx.describe(|| format!("parse_with_modules [modgraph {} levels asked {} built {} tail {} import-spec {}] {} bytes: {:?}", shape_name, MG_LEVELS[li], made, tail_kind, spec, text.len(), short(&text)));
+    ctx.label(target_label(t));
+    ctx.label(match shape {
+        1..=3 => "modgraph-stacked-diamonds",
+        4 => "modgraph-complete-dag",
+        _ => "modgraph-tree-like",
+    });
+    if tail_kind == 1 || tail_kind == 2 {
+        ctx.label("modgraph-refused-import");
+    }
+    if made >= 8 {
+        ctx.nontrivial(hash_str(&text));
+    }
+    let direct = std::env::var("VERIF_C05_DIRECT").is_ok();
+    if direct || made <= 12 {
+        ctx.label("modgraph-in-process");
+        return judge(t, &text, ctx);
+    }
+    ctx.label("modgraph-child-process");
+    let ti = ALL_TARGETS.iter().position(|x| *x == t).unwrap_or(0);
+    let mut choices: Vec<u32> = vec![ti as u32, text.len() as u32];
+    choices.extend(text.bytes().map(|b| b as u32));
+    match run_in_child_capped("text", &choices, 0, true, Some(3)) {
+        ChildOutcome::Pass => Verdict::Pass,
+        ChildOutcome::Fail(sig, detail) if sig.starts_with("panic@") => Verdict::fail(sig, detail),
+        ChildOutcome::Fail(..) | ChildOutcome::Harness(_) => Verdict::Discard("child process could not be judged"),
+        ChildOutcome::Signal(sn, overflow) => {
+            if overflow {
+                Verdict::fail(format!("stack-overflow@{}", t.name()), format!("{} overflowed an 8 MiB stack on an import graph ({}, {} levels; child died by signal {})", t.name(), shape_name, made, sn))
+            } else {
+                Verdict::fail(format!("signal-{}@{}", sn, t.name()), format!("{} killed the process (signal {}) on an import graph ({}, {} levels)", t.name(), sn, shape_name, made))
+            }
+        }
+        ChildOutcome::Hang => Verdict::fail(
+            format!("hang@{}", t.name()),
+            format!("{} did not return within {} s on a {}-byte text declaring an import graph ({}, {} levels, tail {}): {:?}", t.name(), watchdog_secs(), text.len(), shape_name, made, tail_kind, short(&text)),
+        ),
+        ChildOutcome::AllocFailure(g) => Verdict::fail(
+            format!("alloc-failure@{}", t.name()),
+            format!("{} aborted the process asking for more than {} GiB of memory on a {}-byte text declaring an import graph ({}, {} levels, tail {}): {:?}", t.name(), g, text.len(), shape_name, made, tail_kind, short(&text)),
+        ),
     }
 }
 
@@ -1498,7 +1646,7 @@ pub fn run_chains(s: &mut Src, ctx: &mut Ctx) -> Verdict {
         match run_in_child("text", &choices, 0, true) {
             ChildOutcome::Pass => {}
             ChildOutcome::Fail(sig, detail) if sig.starts_with("panic@") => return Verdict::fail(sig, detail),
-            ChildOutcome::Fail(..) | ChildOutcome::Harness(_) => return Verdict::Discard("child process could not be judged"),
+            ChildOutcome::Fail(..) | ChildOutcome::Harness(_) | ChildOutcome::AllocFailure(_) => return Verdict::Discard("child process could not be judged"),
             ChildOutcome::Signal(sn, overflow) => {
                 return if overflow {
                     Verdict::fail(format!("stack-overflow@{}", t.name()), format!("{} overflowed an 8 MiB stack on {:?} (child died by signal {})", t.name(), short(&text), sn))
@@ -1558,7 +1706,7 @@ pub fn property() -> Property {
     let mut prop = Property {
         id: "C05",
         level: "exploration",
-        rule: "generated: (entry point, text) for 14 entry points (GRLParser::parse_rules/parse_rule/parse_with_modules, QueryParser::parse, ExpressionParser::parse, GRLQueryParser::parse/parse_queries, parse_aggregate_query, DisjunctionParser::parse, NestedQueryParser::parse, parse_stream_pattern/parse_stream_join_pattern/parse_window_spec, expression::evaluate_expression over a fixed 6-field store); text is valid UTF-8 of at most 4096 bytes from three random families (raw bytes lossily decoded; token soup of the language's keywords/operators/delimiters plus multi-byte tokens, bare or in the slots of a valid skeleton; valid seeds mutated 1-4 times by truncation at a byte, insertion/replacement of a multi-byte character, deletion of a delimiter/slice/bracket group, duplication, splice, token insertion, long runs, extreme numbers) and two enumerated ones (edits: every seed x every single truncation / character deletion / extreme number / dropped bracket group / multi-byte insertion or replacement; deep: unit^n for 31 units and n = 1,2,4,...,4096 (quick: up to 512) plus balanced nesting up to 32, bare and in every slot of a valid skeleton). Texts whose matched bracket nesting exceeds 32 are discarded. Oracle: the call returns (Ok or Err) on a thread with an 8 MiB stack: a panic fails with the panic location as signature, a stack overflow or abort (seen as the death of a child process for deep cases of 1000 bytes or more, of the worker otherwise) and a run longer than the watchdog fail. Non-trivial: the text passes the first syntactic gate of its parser, judged on the text alone (rule/query keyword followed by a brace pair; a first token the recursive descent consumes; ` WHERE ` / parenthesised ` OR ` present; leading identifier / `over`; at least one arithmetic operator) and the call returned; distinct by (entry point, text). Part `chains` (exhaustive): every unit of 2 (thorough: 3) tokens over a 9-14 token alphabet per language (operands, infix and prefix operators, brackets, keywords), repeated 3,6,...,64 times, bare / followed by an operand / inside the first skeleton slot, on every entry point of that language; every length is one judged call; after the first call slower than 100 ms the longer ones run in a child process (hang@<target> names the text).",
+        rule: "generated: (entry point, text) for 14 entry points (GRLParser::parse_rules/parse_rule/parse_with_modules, QueryParser::parse, ExpressionParser::parse, GRLQueryParser::parse/parse_queries, parse_aggregate_query, DisjunctionParser::parse, NestedQueryParser::parse, parse_stream_pattern/parse_stream_join_pattern/parse_window_spec, expression::evaluate_expression over a fixed 6-field store); text is valid UTF-8 of at most 4096 bytes from three random families (raw bytes lossily decoded; token soup of the language's keywords/operators/delimiters plus multi-byte tokens, bare or in the slots of a valid skeleton; valid seeds mutated 1-4 times by truncation at a byte, insertion/replacement of a multi-byte character, deletion of a delimiter/slice/bracket group, duplication, splice, token insertion, long runs, extreme numbers) and two enumerated ones (edits: every seed x every single truncation / character deletion / extreme number / dropped bracket group / multi-byte insertion or replacement; deep: unit^n for 31 units and n = 1,2,4,...,4096 (quick: up to 512) plus balanced nesting up to 32, bare and in every slot of a valid skeleton). Texts whose matched bracket nesting exceeds 32 are discarded. Oracle: the call returns (Ok or Err) on a thread with an 8 MiB stack: a panic fails with the panic location as signature, a stack overflow or abort (seen as the death of a child process for deep cases of 1000 bytes or more, of the worker otherwise) and a run longer than the watchdog fail. Non-trivial: the text passes the first syntactic gate of its parser, judged on the text alone (rule/query keyword followed by a brace pair; a first token the recursive descent consumes; ` WHERE ` / parenthesised ` OR ` present; leading identifier / `over`; at least one arithmetic operator) and the call returned; distinct by (entry point, text). Part `chains` (exhaustive): every unit of 2 (thorough: 3) tokens over a 9-14 token alphabet per language (operands, infix and prefix operators, brackets, keywords), repeated 3,6,...,64 times, bare / followed by an operand / inside the first skeleton slot, on every entry point of that language; every length is one judged call; after the first call slower than 100 ms the longer ones run in a child process (hang@<target> names the text). Part modgraph (exhaustive): for parse_with_modules, module import GRAPHS of every shape in {chain, ladder of diamonds (2 / 3 back), two-column diamond stack, complete DAG, fan-in, fan-out} x 2..64 levels (as fit into 4 KiB) x {no tail, closing back edge, self import, rule in the last module} x three import spellings; above 12 levels in a child process with a 3 GiB address-space cap, where an allocation-failure abort is reported as alloc-failure@parse_with_modules (a 4 KiB text that needs more than 3 GiB does not return a value or an error either).",
         assumptions: vec![
             "stack size: every call runs on a thread created with an explicit 8 MiB stack, the default main-thread stack on Linux; frame sizes are those of the harness build (engine at opt-level 2, no ASan) - the unbounded recursions C05-F8/F9 overflow 8 MiB only when the engine is built at opt-level 0 (`cargo build --bin rre-check --config 'profile.dev.package.rust-rule-engine.opt-level=0'`) or under ASan (fuzz crate)".into(),
             "termination is judged by the 120 s watchdog (VERIF_WATCHDOG_S) per input: by the monitor for in-process cases, and 2 s earlier by this module for deep cases run in a child process (so that its timeout, which carries a signature, wins the race against the monitor)".into(),
@@ -1577,6 +1725,7 @@ pub fn property() -> Property {
             Part { name: "edits", run: run_edits, quick: Budget::Exhaustive { param: 1 }, thorough: Budget::Exhaustive { param: 2 }, min_nontrivial_pct: 0 },
             Part { name: "text", run: run_text, quick: Budget::Skip, thorough: Budget::Skip, min_nontrivial_pct: 0 },
             Part { name: "deep", run: run_deep, quick: Budget::Exhaustive { param: 10 }, thorough: Budget::Exhaustive { param: 13 }, min_nontrivial_pct: 0 },
+            Part { name: "modgraph", run: run_modgraph, quick: Budget::Exhaustive { param: 1 }, thorough: Budget::Exhaustive { param: 1 }, min_nontrivial_pct: 0 },
             Part { name: "chains", run: run_chains, quick: Budget::Exhaustive { param: 2 }, thorough: Budget::Exhaustive { param: 3 }, min_nontrivial_pct: 0 },
         ],
         watchdog: true,
